@@ -56,5 +56,14 @@ func init() {
 		flag("c18_restore_checks_end_marker", containsCall(t.funcDecl("overlay", "Engine"), "sawEndMarker"))
 		tp := loadPkg(filepath.Join(*repo, "pkg", "tar"))
 		flag("c18_since_is_strict_after", containsCall(tp.funcDecl("SinceFilterTarFile", ""), "After"))
+		// tar.Stream closes the tar writer (end-of-archive marker) only after a complete walk: no deferred call
+		deferred := false
+		ast.Inspect(tp.funcDecl("Stream", ""), func(n ast.Node) bool {
+			if _, ok := n.(*ast.DeferStmt); ok {
+				deferred = true
+			}
+			return true
+		})
+		flag("c18_stream_marker_only_on_success", !deferred && containsCall(tp.funcDecl("Stream", ""), "Close"))
 	})
 }
